@@ -640,6 +640,9 @@ class An:
             if r[0] == 'call' and r[1] == 'core::ops::RangeInclusive::new':
                 return ('unknown', 'inclusive range slice')
             return mk_elem(args[0], r)
+        if name == 'split_at_mut' and len(args) == 2 and 'slice' in path and not is_local_impl:
+            # (&mut x[..k], &mut x[k..]): two views, so that writes through either half are writes to x at that range
+            return ('agg', 'tuple', 'tuple', (mk_slice(args[0], None, args[1]), mk_slice(args[0], args[1], None)), ('0', '1'))
         if path in ('core::slice::<impl [T]>::len',) or (name == 'len' and 'slice' in path):
             return ('len', args[0])
         # --- local callees returning a reference into one of their arguments: rebase
@@ -1066,6 +1069,8 @@ def _pp(t, depth=0):
 
 
 def pp_path(path, d=0):
+    if path is None:
+        return '.?'
     s = ''
     for e in path:
         if e[0] == 'f':
